@@ -11,5 +11,8 @@ import CompmechVerif.Props.C19
 #print axioms Compmech.Panel.C19.byParts_eq_pistonForm_x
 #print axioms Compmech.Panel.C19.byParts_eq_pistonForm_y
 #print axioms Compmech.Panel.C19.pistonForm_linear
+#print axioms Compmech.Panel.C19.loop_nest_standard
+#print axioms Compmech.Panel.C19.byParts_split_x
+#print axioms Compmech.Panel.C19.kAx_matrix_cpanel
 #print axioms Compmech.Panel.C19.coefficients_from_mach
 #print axioms Compmech.Panel.C19.coefficients_given
